@@ -709,6 +709,106 @@ theorem Bounded.run {w : World} (h : Bounded w) (es : List Event) : Bounded (run
   | nil => exact h
   | cons e es ih => rw [run_cons]; exact ih (h.step e)
 
+/-! ## a name about which nothing is known -/
+
+theorem Assoc.get_del_self {α} (m : Assoc α) (k : Str) : (m.del k).get k = none := by
+  unfold Assoc.get Assoc.del
+  have : (m.filter (fun x => decide (x.1 ≠ k))).find? (fun x => decide (x.1 = k)) = none := by
+    rw [List.find?_eq_none]
+    intro x hx
+    have := (List.mem_filter.1 hx).2
+    simpa using this
+  rw [this]; rfl
+
+/-- the lazy deletion `HasDnsKnowledge` performs on an expired entry -/
+def dropExpiredKnow (w : World) (k : Str) : World :=
+  match w.know.get k with
+  | some e => if e ≤ w.now then { w with know := w.know.del k } else w
+  | none => w
+
+/-- the lazy deletion `lookupRealDomainCache` performs on an expired negative entry -/
+def dropExpiredNeg (w : World) (d : Str) : World :=
+  match w.neg.get d with
+  | some e => if w.now < e then w else { w with neg := w.neg.del d }
+  | none => w
+
+theorem hasKnowledge_of_not_live (w : World) (k : Str) (hk : k ≠ [])
+    (h : ∀ e, w.know.get k = some e → e ≤ w.now) :
+    hasKnowledge w k = (dropExpiredKnow w k, false) := by
+  unfold hasKnowledge dropExpiredKnow
+  rw [if_neg hk]
+  cases hg : w.know.get k with
+  | none => rfl
+  | some e => simp only [if_pos (h e hg)]
+
+theorem lookupReal_of_unknown (w : World) (d : Str) (hrs : w.realSet.contains d = false)
+    (h : ∀ e, w.neg.get d = some e → e ≤ w.now) :
+    lookupReal w d = (dropExpiredNeg w d, false, false) := by
+  unfold lookupReal dropExpiredNeg
+  rw [if_neg (by rw [hrs]; simp)]
+  cases hg : w.neg.get d with
+  | none => rfl
+  | some e =>
+    have : ¬ w.now < e := by have := h e hg; omega
+    simp only [if_neg this]
+
+/-- the world `ChooseDialTarget` leaves behind for an unknown name: only the two lazy deletions. -/
+def cleaned (w : World) (k d : Str) : World := dropExpiredNeg (dropExpiredKnow w k) d
+
+theorem dropExpiredKnow_frame (w : World) (k : Str) :
+    (dropExpiredKnow w k).mode = w.mode ∧ (dropExpiredKnow w k).now = w.now ∧
+    (dropExpiredKnow w k).realSet = w.realSet ∧ (dropExpiredKnow w k).neg = w.neg ∧
+    (dropExpiredKnow w k).cache = w.cache ∧ (dropExpiredKnow w k).realAdds = w.realAdds ∧
+    (dropExpiredKnow w k).nboot = w.nboot := by
+  unfold dropExpiredKnow
+  cases w.know.get k with
+  | none => exact ⟨rfl, rfl, rfl, rfl, rfl, rfl, rfl⟩
+  | some e => simp only []; split <;> exact ⟨rfl, rfl, rfl, rfl, rfl, rfl, rfl⟩
+
+theorem dropExpiredNeg_frame (w : World) (d : Str) :
+    (dropExpiredNeg w d).mode = w.mode ∧ (dropExpiredNeg w d).now = w.now ∧
+    (dropExpiredNeg w d).realSet = w.realSet ∧ (dropExpiredNeg w d).know = w.know ∧
+    (dropExpiredNeg w d).cache = w.cache ∧ (dropExpiredNeg w d).realAdds = w.realAdds ∧
+    (dropExpiredNeg w d).nboot = w.nboot := by
+  unfold dropExpiredNeg
+  cases w.neg.get d with
+  | none => exact ⟨rfl, rfl, rfl, rfl, rfl, rfl, rfl⟩
+  | some e => simp only []; split <;> exact ⟨rfl, rfl, rfl, rfl, rfl, rfl, rfl⟩
+
+theorem dropExpiredKnow_get (w : World) (k : Str) (h : ∀ e, w.know.get k = some e → e ≤ w.now) :
+    (dropExpiredKnow w k).know.get k = none := by
+  unfold dropExpiredKnow
+  cases hg : w.know.get k with
+  | none => simp only []; exact hg
+  | some e => simp only [if_pos (h e hg)]; exact Assoc.get_del_self _ _
+
+theorem dropExpiredNeg_get (w : World) (d : Str) (h : ∀ e, w.neg.get d = some e → e ≤ w.now) :
+    (dropExpiredNeg w d).neg.get d = none := by
+  unfold dropExpiredNeg
+  cases hg : w.neg.get d with
+  | none => simp only []; exact hg
+  | some e =>
+    have : ¬ w.now < e := by have := h e hg; omega
+    simp only [if_neg this]; exact Assoc.get_del_self _ _
+
+/-- domain mode, user outbound, a name that is neither IP-like nor known in any of the three
+caches: `decideMode` answers "IP, no re-route, start a probe for this name" and leaves the world
+unchanged up to the two lazy deletions. -/
+theorem decideMode_unknown (w : World) (ob : Nat) (dst : Dst) (d : Str)
+    (hm : w.mode = .domain) (hr : isReserved ob = false) (hd : d ≠ []) (hi : isIPLike d = false)
+    (hk : ∀ e, w.know.get (cacheKey d dst.is4) = some e → e ≤ w.now)
+    (hrs : w.realSet.contains d = false)
+    (hn : ∀ e, w.neg.get d = some e → e ≤ w.now) :
+    decideMode w ob dst d = (cleaned w (cacheKey d dst.is4) d, false, false, some d) := by
+  have ne : cacheKey d dst.is4 ≠ [] := by unfold cacheKey qtypeStr; cases dst.is4 <;> simp
+  rw [decideMode_domain w ob dst d hm hr hd, hi]
+  simp only [Bool.false_eq_true, if_false]
+  rw [hasKnowledge_of_not_live w _ ne hk]
+  simp only [Bool.false_eq_true, if_false]
+  obtain ⟨_, f2, f3, f4, _⟩ := dropExpiredKnow_frame w (cacheKey d dst.is4)
+  rw [lookupReal_of_unknown _ d (by rw [f3]; exact hrs) (by rw [f4, f2]; exact hn)]
+  rfl
+
 /-! ## well-keyed histories -/
 
 /-- the FQDN `__updateDnsCacheDeadline` derives from its `host` argument -/
